@@ -39,6 +39,8 @@ type Case struct {
 	// (defmethod name ((a t)) ...) for (defun name (a) ...), in its definition and in its redefinition: the same
 	// function for every caller, reached through dispatch and its cache
 	Generic string `json:"generic,omitempty"`
+	// Defgeneric: the generic function is written with a defgeneric form in front of its method
+	Defgeneric bool `json:"defgeneric,omitempty"`
 }
 
 var defunRx = regexp.MustCompile(`^\(defun (zf\d+) \(([^()&]*)\) `)
@@ -56,7 +58,12 @@ func (c Case) asMethod(def string) string {
 	for _, p := range strings.Fields(m[2]) {
 		ps = append(ps, "("+p+" t)")
 	}
-	return "(defmethod " + m[1] + " (" + strings.Join(ps, " ") + ") " + def[len(m[0]):]
+	meth := "(defmethod " + m[1] + " (" + strings.Join(ps, " ") + ") " + def[len(m[0]):]
+	if c.Defgeneric {
+		// the definition a file would hold: a defgeneric in front of the method, evaluated again with every (re)definition
+		return "(progn (defgeneric " + m[1] + " (" + m[2] + ")) " + meth + ")"
+	}
+	return meth
 }
 
 var modes = []string{"list-forms", "code-compile", "compile-string", "load-file", "eval-quoted"}
@@ -169,6 +176,9 @@ func genCase(rt *rapid.T) Case {
 		}
 	} else if rapid.IntRange(0, 3).Draw(rt, "generic") == 0 {
 		c.Generic = sigs[rapid.IntRange(0, nfun-1).Draw(rt, "genericwhich")].Name
+	}
+	if c.Generic != "" {
+		c.Defgeneric = rapid.Bool().Draw(rt, "defgeneric")
 	}
 	all := permutations(len(c.Defs))
 	if len(c.Defs) <= 3 {
